@@ -507,31 +507,31 @@ theorem numrecs_partial (nc : NC) (h : Inv nc) (h0 : 0 ≤ nc.numrecs) (num : In
     · have : nc.put.numReqs = 0 := by omega
       rw [hW0 this]; simp [maxRecOf]
 
-/-- what a correct per-record split of a sub-request looks like -/
-def record_split_Statement : Prop :=
-  ∀ (tag : Nat) (nelems xoff xsz : Int) (k : Nat), 0 < k → (k : Int) ∣ nelems →
-    splitVarn tag nelems xoff xsz k = exactSplit tag nelems xoff xsz k
+/-- `record_split`: splitting a record-variable request into one request per record (both the
+    varm path and the varn path, ncmpio_add_record_requests) yields `k` pieces of `nelems / k`
+    elements whose buffers tile the request's buffer back to back, for every record count `k` -/
+theorem record_split (tag : Nat) (nelems xoff xsz : Int) (k : Nat) (hk : 0 < k) :
+    splitVarn tag nelems xoff xsz k = exactSplit tag nelems xoff xsz k ∧
+    splitVarm tag nelems xsz k = exactSplit tag nelems 0 xsz k := by
+  by_cases h1 : 1 < k
+  · simp [splitVarn, splitVarm, exactSplit, addRecordRequests, h1]
+  · have : k = 1 := by omega
+    subst this
+    simp [splitVarn, splitVarm, exactSplit]
 
-/-- F20: igetput_varn hands the UNDIVIDED element count to ncmpio_add_record_requests: a
-    sub-request of 16 elements over 2 records becomes two requests of 16 elements, 128 bytes apart -/
-theorem record_split_counterexample : ¬ record_split_Statement := by
-  intro h
-  have := h 0 16 0 8 2 (by decide) (by decide)
-  revert this
-  decide
-
-/-- the varm path (`req->nelems /= count[0]` is there) splits exactly, for every record count, and
-    the varn path is right when the sub-request stays inside one record -/
-theorem record_split_partial (tag : Nat) (nelems xoff xsz : Int) (k : Nat) :
-    (1 < k → splitVarm tag nelems xsz k = exactSplit tag nelems 0 xsz k) ∧
-    (k = 1 → splitVarn tag nelems xoff xsz k = exactSplit tag nelems xoff xsz k) := by
-  constructor
-  · intro hk
-    unfold splitVarm exactSplit addRecordRequests
-    simp [hk]
-  · intro hk
-    subst hk
-    simp [splitVarn, exactSplit]
+/-- the pieces of a split tile the buffer: piece i starts where piece i-1 ends -/
+theorem record_split_tiles (tag : Nat) (nelems xoff xsz : Int) (k : Nat) (i : Nat) (hi : i + 1 < k) :
+    ∃ a b, (exactSplit tag nelems xoff xsz k)[i]? = some a ∧ (exactSplit tag nelems xoff xsz k)[i + 1]? = some b ∧
+      b.xoff = a.xoff + a.nelems * xsz := by
+  unfold exactSplit
+  refine ⟨⟨tag, nelems / (k : Int), xoff + (i : Int) * (nelems / (k : Int) * xsz)⟩,
+          ⟨tag, nelems / (k : Int), xoff + ((i + 1 : Nat) : Int) * (nelems / (k : Int) * xsz)⟩, ?_, ?_, ?_⟩
+  · simp [List.getElem?_map, List.getElem?_range (show i < k by omega)]
+  · simp [List.getElem?_map, List.getElem?_range hi]
+  · simp only
+    have : ((i + 1 : Nat) : Int) = (i : Int) + 1 := by omega
+    rw [this, Int.add_mul]
+    omega
 
 def obligations : List String := [
   "merge_spec", "sort_spec", "coalesce_preserves_map", "merge_disjoint_identity", "aggregate_disjoint",
@@ -540,6 +540,6 @@ def obligations : List String := [
   "refused_wait_harmless_counterexample",
   "wait_exact_partial", "wait_exact_counterexample", "status_by_id_counterexample", "wait_all_spec",
   "cancel_spec", "post_spec",
-  "numrecs_counterexample", "numrecs_partial", "record_split_counterexample", "record_split_partial"
+  "numrecs_counterexample", "numrecs_partial", "record_split", "record_split_tiles"
 ]
 end PnVerif.Props.C02
